@@ -87,16 +87,21 @@ def classify(tr, line, clause):
     kind = tr.get("kind")
     cls = e.get("cls", "-")
     hist = tr.get("hist", [])
-    if clause == "OutcomeSet" and kind == "namet" and cls == "struct.error" and _BIG_ESC.search(tr.get("s", "")):
+    if clause == "OutcomeSet" and kind in ("namet", "zone", "msgt", "rdt") and cls == "struct.error" \
+            and _BIG_ESC.search(tr.get("s", "")):
         return "F1:from_text-decimal-escape-above-255:struct.error"
     if clause == "OutcomeSet" and kind == "zone" and cls == "IndexError" and \
             re.search(r'(^|\n)""', tr.get("s", "")):
         return "F2:zone-line-starting-with-empty-quoted-string:IndexError"
     if clause == "Render" and kind == "rdt" and tr.get("type") == "LOC" and e.get("rwc") == "struct.error":
         return "F3:LOC-altitude-out-of-range:struct.error-in-to_wire"
+    if clause == "Render" and kind == "rdw" and tr.get("type") == "URI" and e.get("rtc") == "UnicodeDecodeError":
+        return "F5:URI-target-not-utf8:UnicodeDecodeError-in-to_text"
     if clause == "Render":
         which = "text:" + e.get("rtc", "-") if e.get("rt", ["ok"])[0] not in ("ok", "none") and "DNSException" not in e.get("rt", []) \
             else "wire:" + e.get("rwc", "-")
+        if op == "msgt" and which == "wire:struct.error":
+            return "C04-msgtext-value-out-of-range:struct.error-in-to_wire"
         if op == "zone" and which == "text:AssertionError" and e.get("opts", [0, 1])[1] == 0:
             return "C04-zone-without-origin:to_text:AssertionError"
         return "Render:%s:%s:%s:%s" % (op, which, tr.get("type", tr.get("base", "-")), fault_names(tr))
@@ -104,10 +109,12 @@ def classify(tr, line, clause):
         if clause == "CoeErrorFamily":
             bad = [x["cls"] for x in e.get("errs", []) if "DNSException" not in x["tags"]]
             cls = bad[0] if bad else cls
-        if op == "optw" and cls in ("ValueError", "UnicodeDecodeError", "struct.error", "IndexError"):
+        if op == "optw" and cls in ("ValueError", "UnicodeDecodeError", "dns.exception.SyntaxError"):
             return "C04-edns-option-from-wire:%s" % cls
         if op == "msgt" and cls == "KeyError":
             return "C04-msgtext-unknown-flag:KeyError"
+        if op == "msgt" and cls == "ValueError":
+            return "C04-msgtext-number-out-of-range:ValueError"
         if op == "msg" and cls == "NotImplementedError" and e.get("opts", [0] * 6)[5] == 1:
             return "C04-tsig-unknown-algorithm:NotImplementedError"
         if op == "zone" and cls == "AssertionError" and e.get("opts", [0, 1])[1] == 0:
@@ -186,3 +193,58 @@ def run(ctx):
         ctx.violation(clause, sig, describe(tr, line), {"job": jobmap.get(tr["tid"]), "line": line, "trace": tr})
     for sig, n in sorted(sigs.items()):
         ctx.log("rejected %5d  %s" % (n, sig))
+
+
+def selftest(ctx):
+    """Corrupt one logged field of good traces and require rejection by the named clause
+    (the uncorrupted traces must be accepted).  Writes evidence/C04.selftest.json."""
+    import copy
+    import os
+    table = c04_table.load()
+    by_key = {"rd": {r["key"]: r for r in table["rdata"]}, "opt": {o["key"]: o for o in table["options"]}}
+    cfg = ctx.cfg("gen_st.cfg", GEN_CFG.format(mf=1, kinds=tset(["msg", "zone", "namet"]), pairs=tset([])))
+    behs = ctx.generate("Gen_Robustness", cfg, count=False)
+
+    def pick(pred):
+        b = next(x for x in behs if pred(x))
+        job = finish_job(dict(b, tid="st", src="spec", light=False), by_key)
+        return c04_robust.run_job(job)
+
+    good_msg = pick(lambda x: x["kind"] == "msg" and x["base"] == "M2" and x["hist"] == [["fld", 2, 6, [192, 0, 2]]])
+    good_zone = pick(lambda x: x["kind"] == "zone" and x["base"] == "Z1" and x["hist"] == [["tok", 2, 2, "badttl"]])
+    good_name = pick(lambda x: x["kind"] == "namet" and x["base"] == "T1" and x["hist"] == [])
+    cases = []
+
+    def corrupt(name, base, clause, fn):
+        tr = copy.deepcopy(base)
+        fn(tr)
+        tr["tid"] = name
+        cases.append((name, clause, tr))
+
+    coe = next(i for i, e in enumerate(good_msg["ev"]) if e["opts"] == [0, 0, 0, 1, 0, 0])
+    corrupt("outcome-not-library", good_msg, "OutcomeSet", lambda t: t["ev"][0].update(out=["other"], cls="IndexError"))
+    corrupt("accepted-faulted-input", good_msg, "Verdict", lambda t: t["ev"][0].update(out=["ok"], cls="-"))
+    corrupt("coe-raises", good_msg, "OutcomeSet", lambda t: t["ev"][coe].update(out=["DNSException", "FormError"]))
+    corrupt("coe-offset-shifted", good_msg, "Bookkeeping", lambda t: t["ev"][coe]["errs"][0].update(off=20))
+    corrupt("coe-error-dropped", good_msg, "Bookkeeping", lambda t: t["ev"][coe].update(errs=[]))
+    corrupt("coe-record-lost", good_msg, "Records", lambda t: t["ev"][coe].update(n=[1, 0, 0, 1]))
+    corrupt("coe-error-not-library", good_msg, "CoeErrorFamily", lambda t: t["ev"][coe]["errs"][0].update(tags=["other"]))
+    corrupt("input-octet-changed", good_msg, "InputBinding", lambda t: t["w"].__setitem__(20, 0))
+    corrupt("render-raises", good_name, "Render", lambda t: t["ev"][0].update(rw=["other"], rwc="struct.error"))
+    corrupt("hang", good_name, "OutcomeSet", lambda t: t["ev"][0].update(out=["hang"], cls="hang"))
+    zd = next(i for i, e in enumerate(good_zone["ev"]) if e["op"] == "zone" and e["opts"] == [1, 1, 0, 1])
+    corrupt("zone-error-without-file-line", good_zone, "FileLine", lambda t: t["ev"][zd].update(fp=0, ln=0))
+    corrupt("zone-error-wrong-line", good_zone, "ErrLine", lambda t: t["ev"][zd].update(ln=5))
+    corrupt("zone-bad-ttl-accepted", good_zone, "Verdict", lambda t: t["ev"][zd].update(out=["ok"], cls="-"))
+    goods = [dict(good_msg, tid="good-msg"), dict(good_zone, tid="good-zone"), dict(good_name, tid="good-name")]
+    rejects = ctx.validate("Trace_Robustness", "Trace_Robustness.cfg", goods + [c[2] for c in cases])
+    got = {tr["tid"]: clause for tr, line, clause in rejects}
+    rows = [{"case": n, "expected_clause": c, "rejected_by": got.get(n)} for n, c, _ in cases]
+    ok = all(r["rejected_by"] == r["expected_clause"] for r in rows) and not any(t.startswith("good-") for t in got)
+    for r in rows:
+        ctx.log("selftest %-32s expected %-14s got %s" % (r["case"], r["expected_clause"], r["rejected_by"]))
+    with open(os.path.join(core.ROOT, "evidence", "C04.selftest.json"), "w") as f:
+        json.dump({"property_id": "C04", "corrupted_traces": rows, "good_traces_accepted": not any(t.startswith("good-") for t in got),
+                   "ok": ok}, f, indent=1)
+    print("SELFTEST C04 %s (%d corrupted traces)" % ("ok" if ok else "FAILED", len(rows)))
+    return 0 if ok else 2
